@@ -776,6 +776,105 @@ fn validity_part(r: &Report) {
 }
 
 // ---------------------------------------------------------------------------------------------
+// part 2b: CuckooToPermutation completes every Cuckoo table to a true permutation
+
+/// every assignment of a number of dummy cells (0..=m) to the rows of an [rows, m] batch of Cuckoo tables (row r:
+/// k_r dummy cells in front, then the values 0..m-k_r in a rotated order), x 3 evaluator seeds: every output row is
+/// a permutation of 0..m that keeps the non-dummy cells
+fn cuckoo_part(r: &Report) {
+    use ciphercore_base::graphs::{create_context, Operation};
+    let thorough = r.tier.thorough();
+    let mut cases: Vec<(usize, usize, Vec<usize>)> = vec![];
+    for m in 1..=(if thorough { 6usize } else { 5 }) {
+        for rows in 1..=3usize {
+            let total = (m + 1).pow(rows as u32);
+            for code in 0..total {
+                let ks: Vec<usize> = (0..rows).map(|i| (code / (m + 1).pow(i as u32)) % (m + 1)).collect();
+                cases.push((m, rows, ks));
+            }
+        }
+    }
+    let rseed = r.seed;
+    let outs: Vec<(u64, Option<Viol>)> = cases
+        .par_iter()
+        .map(|(m, rows, ks)| {
+            let t = array_type(vec![*rows as u64, *m as u64], UINT64);
+            // the context must stay alive as long as the node is used (nodes hold weak references)
+            let built = catch(|| -> ciphercore_base::errors::Result<(ciphercore_base::graphs::Context, Node)> {
+                let c = create_context()?;
+                let g = c.create_graph()?;
+                let x = g.input(t.clone())?;
+                let n = g.add_node(vec![x], vec![], Operation::CuckooToPermutation)?;
+                Ok((c, n))
+            });
+            let (_ctx, node) = match built {
+                Ok(Ok(x)) => x,
+                _ => return (0, None),
+            };
+            let mut elems: Vec<u128> = vec![];
+            for (ri, k) in ks.iter().enumerate() {
+                let live = m - k;
+                for c in 0..*m {
+                    if c < *k {
+                        elems.push(u64::MAX as u128);
+                    } else {
+                        // the values 0..m, those >= live left out, rotated by the row index
+                        elems.push((((c - k) + ri) % live.max(1)) as u128);
+                    }
+                }
+            }
+            let input = vals::arr_value(&elems, &UINT64);
+            let mut calls = 0;
+            for s in 0..3usize {
+                let mut ev = match SimpleEvaluator::new(Some(seed_of(40 + s, rseed))) {
+                    Ok(e) => e,
+                    Err(_) => return (calls, None),
+                };
+                calls += 1;
+                let case = json!({"part": "cuckoo", "m": m, "rows": rows, "dummies": ks, "seed_index": s});
+                let bad = |kind: &str, msg: String| {
+                    Some(Viol {
+                        sig: format!("C15:cuckoo-to-permutation:{}", kind),
+                        what: format!("CuckooToPermutation on {} tables of {} cells with {:?} dummy cells: {}", rows, m, ks, msg),
+                        case: case.clone(),
+                    })
+                };
+                let v = match eval_node(&mut ev, &node, vec![input.clone()]) {
+                    Ok(v) => v,
+                    Err(e) => return (calls, bad(if e.starts_with("panic") { "panics" } else { "fails" }, e)),
+                };
+                if !vals::layout_ok(&v, &t) {
+                    return (calls, bad("invalid-encoding", "result does not have the layout of the input type".into()));
+                }
+                let out = vals::arr_elems(&v, &t).unwrap_or_default();
+                for ri in 0..*rows {
+                    let row = &out[ri * m..(ri + 1) * m];
+                    let mut seen = vec![false; *m];
+                    for (c, x) in row.iter().enumerate() {
+                        if *x >= *m as u128 || seen[*x as usize] {
+                            return (calls, bad("not-a-permutation", format!("row {} of the result is {:?}", ri, row)));
+                        }
+                        seen[*x as usize] = true;
+                        let inp = elems[ri * m + c];
+                        if inp != u64::MAX as u128 && inp != *x {
+                            return (calls, bad("cell-changed", format!("row {} cell {}: table holds {}, result {}", ri, c, inp, x)));
+                        }
+                    }
+                }
+            }
+            (calls, None)
+        })
+        .collect();
+    for (calls, v) in outs {
+        r.count("evaluations", calls);
+        r.count("cuckoo_completion_calls", calls);
+        if let Some(v) = v {
+            r.violation(&v.sig, &v.what, v.case);
+        }
+    }
+}
+
+// ---------------------------------------------------------------------------------------------
 // part 3: the PRF session's bounded sampler, all raw values of the first draw
 
 const CONT: [u8; 8] = [7, 0, 0, 0, 0, 0, 0, 0];
@@ -1553,6 +1652,7 @@ pub fn run(r: &Report) -> i32 {
         times.insert(name.to_string(), json!(((r.elapsed() - t0) * 10.0).round() / 10.0));
     };
     timed("validity", &validity_part);
+    timed("cuckoo", &cuckoo_part);
     timed("u32range", &u32range_part);
     timed("u64range", &u64range_part);
     timed("shuffle", &shuffle_part);
@@ -1566,8 +1666,9 @@ pub fn run(r: &Report) -> i32 {
          evaluator instances x {PRF(K1|K2, 1..3, 5 types incl. u64[70]) , PermutationFromPRF(K1|K2, 1..3, n in 1,2,5,300), \
          Random(u8[3]), RandomPermutation(5)}, all histories up to depth 3; thorough adds all histories up to depth 4 over a reduced alphabet (22 calls: counters 1..2, 4 types, n in 5,300); every call checked against \
          a reference table (fresh evaluator per call); validity: 26 output types and 10 permutation sizes x counters 0..4095 x 3 \
-         keys (K2, K3 differ from K1 in one bit); u32range: every modulus 1..=256 x all 65536 raw values (thorough: 257, 1000, \
-         65535, 65536 x all 2^24) through the tape hook; u64range: moduli 1..=65536 and 2^k, 2^k+-1, 3*2^k x raw values around \
+         keys (K2, K3 differ from K1 in one bit); cuckoo: CuckooToPermutation on every [rows<=3, m<=5(6)] batch of tables with every number of dummy \
+         cells per row x 3 seeds (rows are permutations keeping the non-dummy cells); u32range: every modulus 1..=256 x all 65536 raw values (thorough: 257, 1000, \
+         65535, 65536 x all 2^24) through the tape hook, also with a batch boundary inside the draw (split-tape hook); u64range: moduli 1..=65536 and 2^k, 2^k+-1, 3*2^k x raw values around \
          floor(2^64/m)*m; shuffle: all (n!)^(n-1) raw tuples for n <= 4; valtape: all tapes for 10 small bit types x 2 samplers; \
          stream: all call sequences of length <= 3 over 9 generator calls x 4 seeds",
         true,
@@ -1587,6 +1688,8 @@ pub fn run(r: &Report) -> i32 {
             "validity_distinctness_checked",
             "validity_stream_blocks_checked",
             "ctr_law_cases",
+            "cuckoo_completion_calls",
+            "u32range_calls_across_batch_boundary",
             "u32range_first_draw_rejected",
             "u32range_first_draw_accepted",
             "u32boundary_rejected",
